@@ -40,10 +40,6 @@ fn forms(v: &RefVal) -> Vec<(String, Vec<u8>, bool)> {
         for (st, ns) in [(IdStyle::Modern, None), (IdStyle::Modern, Some(AtomStyle::Utf8)), (IdStyle::Legacy, None), (IdStyle::Mid, None), (IdStyle::Modern, Some(AtomStyle::Latin1))] {
             let mut inner = vec![];
             if !w_id(&mut inner, v, st, ns) { continue; }
-            // inner forms the library cannot read at all belong to C03's findings, not here
-            if inner[0] == 89 { continue; }
-            if ns == Some(AtomStyle::Latin1) && inner.iter().any(|&b| b >= 0x80) && !plain.iter().any(|&b| b >= 0x80) { continue; }
-            if ns == Some(AtomStyle::Latin1) { if let RefVal::Pid { node, .. } | RefVal::Port { node, .. } | RefVal::Ref { node, .. } = v { if !node.is_ascii() { continue; } } }
             let mut b = vec![121];
             b.extend_from_slice(&hash.to_be_bytes());
             b.extend_from_slice(&inner);
